@@ -31,6 +31,7 @@ def tree_of(facts, body, level="prim", keep=(), inline_extra=(), args=None, max_
     t = ex.run_body(body, args)
     if info is not None:
         info["iterated"] = list(ex.iterated)
+        info["covered"] = set(ex.covered)
     return t
 
 def norm_tree(tree, mode="E", eft=None):
